@@ -751,8 +751,32 @@ func (s *lockSys) runStress(rnd *rand.Rand, rounds int) {
 			}
 		}(pid)
 	}
-	wg.Wait()
-	s.quiesce()
+	// ungated callers cannot be drained by the harness: if the whole system makes no progress for
+	// several seconds while callers are still inside their calls, that is a lost wake-up / residue
+	done := make(chan struct{})
+	go func() { wg.Wait(); close(done) }()
+	lastSeq, lastMove := -1, time.Now()
+	for {
+		select {
+		case <-done:
+			s.quiesce()
+			return
+		case <-time.After(50 * time.Millisecond):
+		}
+		s.mu.Lock()
+		cur := s.seq
+		s.mu.Unlock()
+		if cur != lastSeq {
+			lastSeq, lastMove = cur, time.Now()
+			continue
+		}
+		if time.Since(lastMove) > 5*time.Second {
+			s.mu.Lock()
+			s.ev(map[string]any{"e": "stuck", "ps": []int{}})
+			s.mu.Unlock()
+			return // the blocked goroutines are abandoned; the process ends after the run
+		}
+	}
 }
 
 // ---- the C01 known finding: a release that reaches the store after the lease ran out --------
@@ -910,9 +934,14 @@ func driveLock(opt *Options) error {
 			if opt.Variant == "redis" {
 				rounds = 12
 			}
+			if giveUp() {
+				break
+			}
 			s.runStress(rnd, rounds)
 			flush(s, true)
-			s.close()
+			if !giveUp() {
+				s.close()
+			}
 		}
 	case "latedelete":
 		s, err := newLockSys([]int{1, 2, 3}, []int{1, 2, 3}, opt.Variant, lease)
